@@ -29,6 +29,7 @@ def run(ctx):
     _railrules.runner_order_once(ctx, "C16.b.retrieval-order", flows, "retrieval")
     c_table(ctx, flows)
     d_markers(ctx, flows)
+    e_options_injected(ctx)
 
 
 def a_tables(ctx, flows):
@@ -310,3 +311,41 @@ def d_markers(ctx, flows):
                                   and isinstance(s.value, ast.Constant) and s.value.value is None for s in n.body))
     ctx.check("C16.d.stop", PLOG, "compute_generation_log", "bracket closed on *RailFinished", bool(closes) and all(closes),
               "the current rail is reset to None exactly when its Finished marker arrives", line=fn.lineno)
+
+
+def e_options_injected(ctx):
+    """The options of THIS call reach the flows: the context message carrying them is injected
+    whenever options are present, whatever their content (otherwise the options of an earlier
+    turn, still in the state/cache, keep governing which rails run)."""
+    t = ctx.tree.ast(LLMRAILS)
+    fn = find_function(t, "generate_async")
+    inj = [n for n in walk_no_nested(fn) if isinstance(n, ast.Dict) and any(isinstance(k, ast.Constant) and k.value == "generation_options" for k in n.keys)]
+    ctx.floor("C16.e.options-injected", LLMRAILS, "construction of the generation_options context message", len(inj), 1)
+    for d in inj:
+        guard = None
+        for p in _ancestors(d, fn):
+            if isinstance(p, ast.If):
+                guard = p
+                break
+        ok, msg = True, "the context message is built unconditionally"
+        if guard is not None:
+            names = sorted({n.id for n in ast.walk(guard.test) if isinstance(n, ast.Name)})
+            v = truth(evaluate(guard.test, {n: AObj() for n in names}))
+            ok = v is True
+            msg = "guard `%s` is true for every options object" % first_line(guard.test, 60) if ok else \
+                "guard `%s` is not true for every options object (evaluates to %s): for some option values the context message is skipped and the previous turn's $generation_options stays in force" % (first_line(guard.test, 60), v)
+        val = [v for k, v in zip(d.keys, d.values) if isinstance(k, ast.Constant) and k.value == "generation_options"][0]
+        if ok and not (isinstance(val, ast.Call) and isinstance(val.func, ast.Attribute) and val.func.attr in ("dict", "model_dump") and isinstance(val.func.value, ast.Name)):
+            ok, msg = False, "the message does not carry the whole options object (`%s`)" % src(val)
+        ctx.check("C16.e.options-injected", LLMRAILS, "LLMRails.generate_async", first_line(d), ok, msg, line=d.lineno)
+    # dict options are always converted to the model (so `.rails.<x>` exists for the flows)
+    conv = [n for n in walk_no_nested(fn) if isinstance(n, ast.Assign) and isinstance(n.value, ast.Call) and src(n.value.func) == "GenerationOptions" and n.value.keywords
+            and any(k.arg is None for k in n.value.keywords)]
+    ctx.check("C16.e.options-injected", LLMRAILS, "LLMRails.generate_async", "dict options converted", bool(conv), "options given as a dict are converted with GenerationOptions(**options)", line=fn.lineno)
+
+
+def _ancestors(node, stop):
+    p = getattr(node, "_parent", None)
+    while p is not None and p is not stop:
+        yield p
+        p = getattr(p, "_parent", None)
